@@ -40,6 +40,8 @@ def write_summary(facts):
         s = set()
         for m in b.mutations():
             if 1 <= m.root <= b.argc and is_mut_param(b, m.root):
+                if m.kind == 'call' and m.raw and m.raw in facts.bodies:
+                    continue        # handing the parameter to a crate-local callee: what is written is what the callee writes (propagated below)
                 s.add((m.root, m.path, classify(m)))
         summ[b.path] = s
     # propagate: a call passing (alias of) param p to a local callee that writes its k-th param
